@@ -81,6 +81,12 @@ impl VariableMap {
             + self.solvable_to_variable.capacity() * std::mem::size_of::<(SolvableId, VariableId)>()
     }
 
+    /// The number of variables allocated so far (verification hooks only).
+    #[cfg(feature = "verif-hooks")]
+    pub(crate) fn verif_len(&self) -> usize {
+        self.next_id
+    }
+
     /// Allocate a variable for a solvable or the root.
     pub fn intern_solvable_or_root(&mut self, solvable_or_root_id: SolvableOrRootId) -> VariableId {
         match solvable_or_root_id.solvable() {
